@@ -208,6 +208,49 @@ def setup(ctx):
 def run(ctx):
     ctx.forall(ctx.p_hist, ctx.scale(20000, 400000), batch=50)
     ctx.forall(ctx.p_mhist, ctx.scale(8000, 160000), batch=25)
+    if ctx.thorough() and ctx.w == 0:
+        fuzz_phase(ctx)
+
+
+def fuzz_phase(ctx):
+    """libFuzzer campaign on feel_any, whose in-target oracles are this property's invariants (a successful parse and an evaluation
+    leave the scope rendering unchanged; evaluating twice gives equal values). Only failures of those assertions count here; plain
+    crashes are C05's subject."""
+    import glob as _glob
+    import os
+    import shutil
+    from .. import fuzzrun
+    from . import c05
+    if not fuzzrun.build(ctx.log):
+        ctx.extra["fuzz"] = {"skipped": "fuzz targets could not be built (tooling), no verdict from this phase"}
+        return
+    pre = os.path.join(fuzzrun.TARGET, "fuzz-seeds-feel-c13")
+    shutil.rmtree(pre, ignore_errors=True)
+    os.makedirs(pre)
+    rnd = ctx.rng("fuzz-seeds")
+    for i, f in enumerate(sorted(_glob.glob(os.path.join(fuzzrun.FUZZ, "seeds", "feel", "*")))):
+        with open(os.path.join(pre, "s%05d" % i), "wb") as o:
+            o.write(bytes([rnd.randrange(6), rnd.randrange(4)]) + open(f, "rb").read())
+    stats, crashes = fuzzrun.campaign(ctx, "feel_any", PROP, [os.path.join(pre, "*")], runs=ctx.scale(150000, 15000000),
+                                      dict_file=os.path.join(fuzzrun.FUZZ, "feel.dict"), max_len=400, allow_props=["C05", "C13"],
+                                      timeout_s=3 * 3600)
+    shutil.rmtree(pre, ignore_errors=True)
+    mine = 0
+    for c in crashes:
+        if "feel_any.rs" in c["location"]:
+            mine += 1
+            case = c05.fuzz_case(c["data"]) or {}
+            ctx.violations.append({"part": "fuzz:feel_any", "signature": "C13/fuzz-in-target-oracle", "message": c["message"], "replay": c["path"]})
+            print("VIOLATION property=%s replay=%s" % (PROP, c["path"]), flush=True)
+            print("  in-target purity oracle fired for entry=%r text=%r\n  %s" % (case.get("es"), case.get("t"), c["message"][:1000]), flush=True)
+        else:
+            try:
+                os.remove(c["path"])
+            except OSError:
+                pass
+    stats["in_target_oracle_failures"] = mine
+    stats["other_crashes_left_to_C05"] = len(crashes) - mine
+    ctx.extra["fuzz"] = stats
 
 
 if __name__ == "__main__":
